@@ -56,6 +56,8 @@ ASSUMPTIONS = {
             'operator = I^T (M + c K) I from Kronecker 1D matrices: any SPD matrix is admissible for these clauses'],
 }
 SHRINK_ORDER = ['ops', 'cfg', 'data']
+BRANCH_FIELDS = ['hs', 'model', 'truncate', 'history', 'requests', 'nqueries', 'nondefault_marking',
+                 'queried_since_refine', 'nrefine']
 
 TOL = 1e-10
 
@@ -104,6 +106,11 @@ def gen_config(ctx):
         if knotkind == 'mixed':
             knotkind = 'nonuniform'
         kinds = [knotkind] * dim
+    # the parameter domain is [0, pscale]^dim: everything here is invariant under scaling of the parameters, also
+    # for a nano-scale or a kilometre-scale parameter domain (absolute tolerances in knot comparisons are not)
+    pscale = 1.0
+    if prop in ('C04', 'C05'):
+        pscale = c.weighted([(1.0, 17), (2.0 ** -27, 2), (1000.0, 1)])
     knots0 = []
     for d in range(dim):
         br = np.linspace(0.0, 1.0, ncoarse[d] + 1)
@@ -114,7 +121,7 @@ def gen_config(ctx):
         t = [0.0] * (degs[d] + 1) + list(br[1:-1]) + [1.0] * (degs[d] + 1)
         if kinds[d] == 'repeated' and degs[d] >= 2 and ncoarse[d] >= 2:
             t.append(br[1])     # one double interior knot
-        knots0.append(np.array(sorted(t)))
+        knots0.append(np.array(sorted(t)) * pscale)
     truncate = bool(c.choice(2))
     disparity = c.weighted([(np.inf, 4), (1, 3), (2, 2), (3, 1)])
     faces = [(ax, s) for ax in range(dim) for s in (0, 1)]
@@ -137,7 +144,7 @@ def gen_config(ctx):
         maxlevel = min(maxlevel, 3 if dim == 1 else 2)
     # a user of THB-splines passes truncate=True to EVERY refine() call: T-admissible meshes that are not H-admissible
     mark_truncate_always = bool(disparity != np.inf and c.chance(25))
-    return dict(dim=dim, degs=degs, ncoarse=ncoarse, knotkind=knotkind, wide=wide, mark_truncate_always=mark_truncate_always, knots0=knots0, truncate=truncate,
+    return dict(dim=dim, degs=degs, ncoarse=ncoarse, knotkind=knotkind, wide=wide, pscale=pscale, mark_truncate_always=mark_truncate_always, knots0=knots0, truncate=truncate,
                 disparity=disparity, bdspecs=bdspecs, maxlevel=maxlevel, nops=nops)
 
 
@@ -555,14 +562,14 @@ def check_c04(w, deep=True):
             return False
         t = m.knots[k]
         exp = tuple((t[dd][f[dd]], t[dd][f[dd] + cfg['degs'][dd] + 1]) for dd in range(dim))
-        ctx.check(np.allclose(np.array(fs, float), np.array(exp, float), atol=1e-14, rtol=0), 'function-support',
+        ctx.check(np.allclose(np.array(fs, float), np.array(exp, float), atol=1e-14 * cfg['pscale'], rtol=0), 'function-support',
                   lambda: '%s vs %s' % (fs, exp), w.sig(what='support'))
         l, c = exp_c[q.choice(len(exp_c))]
         ce = ctx.call('cell_extents', hs.cell_extents, l, c)
         if ce is RAISED():
             return False
         expc = tuple((m.mesh(l, dd)[c[dd]], m.mesh(l, dd)[c[dd] + 1]) for dd in range(dim))
-        ctx.check(np.allclose(np.array(ce, float), np.array(expc, float), atol=1e-14, rtol=0), 'cell-extents',
+        ctx.check(np.allclose(np.array(ce, float), np.array(expc, float), atol=1e-14 * cfg['pscale'], rtol=0), 'cell-extents',
                   lambda: '%s vs %s' % (ce, expc), w.sig(what='support'))
         # compute_supports of one function: all active cells overlapping its support
         funcs = [[] for _ in range(Lh)]
@@ -742,14 +749,16 @@ def run_case(ctx):
     prop = ctx.prop
     o = ctx.ch.stream('ops')
     ctx.count('cfg.dim%d' % cfg['dim'])
+    if cfg['pscale'] != 1.0:
+        ctx.count('cfg.parameter-domain-scale.%g' % cfg['pscale'])
     ctx.count('cfg.%s' % ('thb' if cfg['truncate'] else 'hb'))
     ctx.count('cfg.disparity.%s' % cfg['disparity'])
     ctx.count('cfg.bdspecs.%s' % ('none' if cfg['bdspecs'] is None else len(cfg['bdspecs'])))
     weights = {
-        'C04': [('refine', 8), ('query', 6), ('refine_region', 2), ('flip', 1), ('copy', 1)],
+        'C04': [('refine', 8), ('query', 6), ('refine_region', 2), ('flip', 1), ('copy', 2), ('switch', 2)],
         'C05': [('refine', 8), ('query', 3), ('snapshot', 4), ('refine_region', 1), ('flip', 1)],
         'C03': [('refine', 8), ('query', 3), ('assemble', 3), ('flip', 1), ('refine_region', 1)],
-        'C11': [('refine', 8), ('query', 6), ('refine_region', 1), ('flip', 1), ('copy', 1)],
+        'C11': [('refine', 8), ('query', 6), ('refine_region', 1), ('flip', 1), ('copy', 1), ('switch', 1)],
     }[prop]
     if prop == 'C04' and ctx.ch.stream('cfg').chance(30):
         check_c04(w, deep=False)       # the empty history
@@ -768,6 +777,7 @@ def run_case(ctx):
         ctx.count('history.adaptive-loop-prefix')
     for step in range(max(cfg['nops'], len(script) + 1) if script else cfg['nops']):
         forced = script.pop(0) if script else None
+        hs, m = w.hs, w.model
         op = forced[0] if forced else o.weighted(weights)
         cache_was_filled = w.queried_since_refine
         if op == 'refine' or (op == 'refine_region' and False):
@@ -797,7 +807,7 @@ def run_case(ctx):
             lv = levels[o.choice(len(levels))]
             pname, pmk = PREDICATES[o.choice(len(PREDICATES))]
             a = (1 + o.choice(9)) / 10.0
-            pred = pmk(a)
+            pred = (lambda *x, _p=pmk(a), _s=cfg['pscale']: _p(*(xi / _s for xi in x)))
             cells = region_marks(w, lv, pred)
             if not cells:
                 ctx.count('op.refine_region.skipped.empty')
@@ -829,10 +839,25 @@ def run_case(ctx):
             cp = ctx.call('copy', hs.copy)
             if cp is RAISED():
                 return
-            w.originals.append((w.hs, m.copy(), w.truncate))
+            saved = {f: getattr(w, f) for f in BRANCH_FIELDS}
+            saved.update(model=m.copy(), history=list(w.history), requests=list(w.requests))
+            w.originals.append(saved)
             w.hs = hs = cp
             ctx.log(['copy_and_continue'])
             ctx.count('op.copy')
+            continue
+        elif op == 'switch':
+            # branching histories: go on with an ORIGINAL that was copied earlier; the copy stays alive as a
+            # branch of its own (both may add levels, fill caches, ...; they must not share mutable state)
+            if not w.originals:
+                continue
+            i = o.choice(len(w.originals))
+            cur = {f: getattr(w, f) for f in BRANCH_FIELDS}
+            for f, v in w.originals[i].items():
+                setattr(w, f, v)
+            w.originals[i] = cur
+            ctx.log(['switch_branch', i])
+            ctx.count('op.switch-branch')
             continue
         elif op == 'snapshot':
             cp = ctx.call('copy', hs.copy)
@@ -869,12 +894,16 @@ def run_case(ctx):
     if w.query_between:
         ctx.count('runs.query.between.refinements')
     # originals must be untouched by what happened to their copies
-    for (h0, m0, t0) in w.originals:
+    for saved in w.originals:
         w2 = World.__new__(World)
         w2.__dict__.update(w.__dict__)
-        w2.hs, w2.model = h0, m0
+        w2.__dict__.update(saved)
         if not structure_matches(w2, prop == 'C04'):
             return
+        if prop == 'C04':
+            big2 = int(np.prod(w2.model.nfuncs(max(0, w2.model.L - 1))))
+            if not check_c04(w2, deep=(big2 <= 1600)):
+                return
         ctx.count('copy.isolation.checked')
     if w.nqueries and w.nrefine and prop in ('C04', 'C11'):
         if not coherence_check(w):
